@@ -277,6 +277,28 @@ def check_full_body(rep):
     return problems, len(paths)
 
 
+def full_body_witness(rep):
+    """real build: a buffered XML body (PutBucketTagging) streamed in two frames - with the right Content-Length it is accepted, without
+    one or with a different one it is refused.  -> list of deviations"""
+    from vlib import replay
+    body = b"<Tagging><TagSet><Tag><Key>k</Key><Value>v</Value></Tag></TagSet></Tagging>"
+    fr = [body[:20].hex(), body[20:].hex()]
+
+    def sc(cl):
+        hs = [["host", "localhost"]] + ([["content-length", str(cl)]] if cl is not None else [])
+        return {"config": {}, "request": {"method": "PUT", "uri": "/bkt?tagging", "headers": hs, "body_frames": fr}}
+    cases = [("exact Content-Length", len(body), True), ("no Content-Length", None, False), ("Content-Length one too large", len(body) + 1, False),
+             ("Content-Length one too small", len(body) - 1, False)]
+    outs = replay.run_scenarios([sc(c[1]) for c in cases])
+    rep.traces_validated += len(cases)
+    bad = []
+    for (name, _, want), o in zip(cases, outs):
+        reached = any(e["ev"].startswith("s3.") for e in o.get("events", []))
+        if reached != want:
+            bad.append("%s: the request %s the backend (status %s)" % (name, "reaches" if reached else "does not reach", o.get("status")))
+    return bad
+
+
 def run(rep, tier):
     rep.engines["z3"] = z3.get_version_string()
     model = Model()
@@ -322,9 +344,13 @@ def run(rep, tier):
     rep.states += n
     if not pr:
         rep.obligation("extract_full_body: non-empty buffered body requires Content-Length and equal length", "rsx+z3", "holds", time.time() - t1)
+    fbw = full_body_witness(rep)
     for key, what in pr:
-        res = rep.violation(key, what, rep.save_cex("fullbody", {"problem": what}), confirmed=False)
+        res = rep.violation(key, what, rep.save_cex("fullbody", {"problem": what, "native": fbw}), confirmed=bool(fbw))
         rep.obligation(key, "rsx+z3", res, 0)
+    if fbw and not pr:
+        res = rep.violation("fullbody-witness", "real build: %s" % (fbw[0],), rep.save_cex("fullbody_witness", fbw), confirmed=True)
+        rep.obligation("buffered body witnesses", "replayer", res, 0)
     # witness validation on the real build: one request per header/query member with a recognisable value
     t1 = time.time()
     import C02replay
